@@ -128,11 +128,19 @@ def splitAtNewlineC (t : List Char) : List (List Char) := splitAuxC t []
 /-- `assure_newline` -/
 def assureNewlineC (t : List Char) : List Char := if t.getLast? == some '\n' then t else t ++ ['\n']
 
-/-- `generate_testcase_expression`; `none` = index panic on `expression_lines[0]` (empty command) -/
+/-- `str::split('\n')`: the pieces between the line feeds -- always at least one, a final empty one behind a
+final line feed -/
+def splitNl : List Char → List Char → List (List Char)
+  | [], cur => [cur]
+  | c :: rest, cur => if c = '\n' then cur :: splitNl rest [] else splitNl rest (cur ++ [c])
+
+/-- `generate_testcase_expression` (since fix 961e96b: every line feed of the expression starts a `> ` line, an
+empty expression is the line `$ `; before, `expression_lines[0]` panicked on the empty expression and a final
+line feed was dropped). The `Option` is kept for the callers: it is always `some`. -/
 def expression (cmd : List Char) : Option (List Char) :=
-  match splitAtNewlineC cmd with
+  match splitNl cmd [] with
   | [] => none
-  | l0 :: rest => some (['$', ' '] ++ assureNewlineC l0 ++ rest.flatMap (fun l => ['>', ' '] ++ assureNewlineC l))
+  | l0 :: rest => some (['$', ' '] ++ l0 ++ ['\n'] ++ rest.flatMap (fun l => ['>', ' '] ++ l ++ ['\n']))
 
 /-- `format!("{}", code)` for an `i32` -/
 def showInt (c : Int) : List Char :=
@@ -302,6 +310,20 @@ def diffBody (m : Mode) (isOther : Char → Bool) (origs : List (List Char)) (li
     | some e, some t => some (e ++ t)
     | _, _ => none
 
+/-- is the first line written behind the shell expression one that is kept as it was (the original text of a
+matched expectation), not a generated one -/
+def firstKept : List Diff.DL → Bool
+  | [] => false
+  | .matched _ _ :: _ => true
+  | .unmatched _ :: r => firstKept r
+  | .unexpected is :: r => if is.isEmpty then firstKept r else false
+
+/-- `push_expectations_and_exit_code` (fix cfef990): the expectation lines, then `[code]` iff `code ≠ 0` -- unless
+the first line is a kept one that starts like a continuation line (`> `): then `[code]` (also `[0]`) goes in
+front, so that the line is not read as a part of the shell expression -/
+def withExitCode (firstKept : Bool) (body : List Char) (code : Int) : List Char :=
+  if firstKept && body.take 2 == ['>', ' '] then exitCodeLine code ++ body else body ++ exitCodeOpt code
+
 /-- `generate_testcase`:
 * `Ok`: command, the original text of every expectation (`assure_newline`), `[code]` iff `code ≠ 0`;
 * `MalformedOutput(diff)`: command, `diffBody`, `[code]` iff `code ≠ 0`
@@ -315,8 +337,8 @@ def generateTestcaseUpd (m : Mode) (isOther : Char → Bool) (cmd : List Char) (
   | none => none
   | some ex =>
     match res with
-    | .ok => some (ex ++ origs.flatMap assureNewlineC ++ exitCodeOpt code)
-    | .malformed d => (diffBody m isOther origs lines d).map (fun b => ex ++ b ++ exitCodeOpt code)
+    | .ok => some (ex ++ withExitCode true (origs.flatMap assureNewlineC) code)
+    | .malformed d => (diffBody m isOther origs lines d).map (fun b => ex ++ withExitCode (firstKept d) b code)
     | .invalidExit actual => (expectationLines m isOther lines).map (fun e => ex ++ e ++ exitCodeOpt actual)
 
 /-- `TestCase::validate` on `ExitStatus::Code(code)`: the exit-code gate (`expected.unwrap_or(0)`)
